@@ -8,7 +8,7 @@ open StepupModel StepupModel.Proto StepupModel.P.Skip
 
 namespace StepupModel.Drv.C04
 
-def parseCause : String → Option Cause
+def parseCause : String → Option K.Cause
   | "EXTERNAL" => some .external | "SUCCEEDED" => some .succeeded | "FAILED" => some .failed
   | "CONFIRMED" => some .confirmed
   | _ => none
